@@ -1,15 +1,16 @@
 #!/bin/sh
-# usage: try_seed.sh <patch.diff> <prop> [<prop> ...]  — apply a seeded change to /repo, run the quick checks, undo it.
+# usage: try_seed.sh <patch.diff> <prop> [<prop> ...]
+# Applies a seeded change to a SCRATCH WORKTREE of /repo (never to /repo itself), runs the quick checks against it
+# (VERIF_REPO), removes the worktree and regenerates Gen for /repo.  Evidence of runs on a seeded tree is not kept.
 set -u
 patch="$1"; shift
-cd /repo || exit 2
-if [ -n "$(git status --porcelain)" ]; then echo "try_seed: /repo not clean"; exit 2; fi
-git apply "$patch" || { echo "try_seed: patch does not apply"; exit 2; }
+wt=$(mktemp -d /tmp/seedtry.XXXXXX); rmdir "$wt"
+git -C /repo worktree add -q --detach "$wt" HEAD || exit 2
+git -C "$wt" apply "$patch" || { echo "try_seed: patch does not apply"; git -C /repo worktree remove --force "$wt"; exit 2; }
 save=$(mktemp -d /tmp/evsave.XXXXXX); cp /verif/evidence/*.json "$save"/ 2>/dev/null
 for p in "$@"; do
-  (cd /verif && VERIF_SEED=${VERIF_SEED:-1} ./check "$p" --tier "${TIER:-quick}" | grep -v "^KNOWN" | tail -3)
+  (cd /verif && VERIF_REPO="$wt" VERIF_SEED=${VERIF_SEED:-1} ./check "$p" --tier "${TIER:-quick}" | grep -v "^KNOWN" | tail -3)
 done
-git -C /repo checkout -- . && git -C /repo clean -fdq
-cp "$save"/*.json /verif/evidence/ 2>/dev/null; rm -rf "$save"   # evidence of runs on a seeded tree is not kept
-# regenerate Gen for the clean tree so later builds are not confused
-(cd /verif && for t in gen_tables gen_limbs gen_asm gen_pins gen_effects gen_go; do [ -x .build/$t ] && .build/$t /repo lean/I3/Gen >/dev/null 2>&1; done; true)
+git -C /repo worktree remove --force "$wt"; git -C /repo worktree prune
+cp "$save"/*.json /verif/evidence/ 2>/dev/null; rm -rf "$save"
+(cd /verif && for t in gen_tables gen_limbs gen_asm gen_pins gen_effects gen_go; do [ -x .build/$t ] && .build/$t /repo lean/I3/Gen >/dev/null 2>&1; done; rm -rf .build/harness_src; true)
